@@ -1,6 +1,7 @@
 import Cuckoo.Gen.Arith
 import Cuckoo.Gen.Consts
 import Cuckoo.Arith.Spec
+import Cuckoo.Model.Par
 /-! K1 side of the driver: evaluates the generated arithmetic and the Nat-level spec. -/
 namespace Driver
 open Cuckoo
@@ -36,6 +37,11 @@ def arithLine (ws : List String) : Option String :=
         | none => pure s!"fuel {Spec.reserveCalc s n}"
       else
         pure s!"{Spec.reserveCalc s n} {Spec.reserveCalc s n}"
+  | ["split", s, e, w] => do
+      let s ← s.toNat?; let e ← e.toNat?; let w ← w.toNat?
+      if s > e || w > 64 then none else
+      let one := ",".intercalate ((Model.splitWork s e w).map fun c => s!"{c.1}-{c.2}")
+      pure s!"{one}|{one}"
   | _ => none
 
 end Driver
